@@ -79,6 +79,11 @@ def single_ops(n: int):
     for a in range(-(n + 2), n + 3):
         ops.append(["bdc", a])
         ops.append(["dc", a])
+    for o in range(n + 1):
+        ops.append(["jsl", o, " "])
+    ops.append(["jsl", 0, ""])
+    for c in range(-2, n + 2):
+        ops.append(["setdoc", "ab", c])
     ops += [["si", "x", -1], ["si", "x", 0], ["si", "x", 1], ["si", "xy", 3], ["tc"]]
     for w in ("uw", "lw", "cw"):
         for a in (-1, 0, 1, 2, 3):
@@ -87,7 +92,12 @@ def single_ops(n: int):
 
 
 def rand_op(rng, n):
-    k = rng.randrange(19)
+    k = rng.randrange(21)
+    if k == 19:
+        return ["jsl", rng.randrange(0, n + 1), rng.choice([" ", "", "-"])]
+    if k == 20:
+        t = "".join(rng.choice(RAND_ALPHA) for _ in range(rng.randrange(0, 5)))
+        return ["setdoc", t, rng.randrange(-3, len(t) + 2)]
     if k >= 14:
         a = rng.choice([-n - 1, -2, -1, 0, 1, 1, 2, 3, n, n + 4])
         if k == 14:
@@ -201,6 +211,10 @@ def op_line(op):
         return f"{k} {enc_str(op[1])}"
     if k == "si":
         return f"si {enc_str(op[1])} {op[2]}"
+    if k == "jsl":
+        return f"jsl {op[1]} {enc_str(op[2])}"
+    if k == "setdoc":
+        return f"setdoc {enc_str(op[1])} {op[2]}"
     return " ".join(str(x) for x in op)
 
 
@@ -250,6 +264,18 @@ def apply_op(b: Buffer, op):
         indent(b, op[1], op[2], op[3])
     elif k == "unind":
         unindent(b, op[1], op[2], op[3])
+    elif k == "jsl":
+        from prompt_toolkit.selection import SelectionState
+        b.selection_state = SelectionState(original_cursor_position=min(op[1], len(b.text)))
+        try:
+            b.join_selected_lines(separator=op[2])
+        finally:
+            b.selection_state = None
+    elif k == "setdoc":
+        try:
+            b.document = Document(op[1], op[2])
+        except AssertionError:
+            pass
     elif k in NAMED:
         # the real readline command, called with a minimal event object
         ev = SimpleNamespace(current_buffer=b, arg=(op[2] if k == "si" else op[1] if len(op) > 1 else 1),
@@ -437,6 +463,14 @@ def check_op(text, cur, op, b: Buffer, ret):
                         break
         if not ok:
             bad("named_commands." + NAMED[k], "frame", "case transform changed characters outside the words it addresses")
+    elif k == "jsl":
+        o = min(op[1], len(text))
+        a, e = min(cur, o), max(cur, o)
+        if not (nt.startswith(text[:a]) and nt.endswith(text[e:]) and len(nt) >= a + len(text) - e):
+            bad("Buffer.join_selected_lines", "frame", "text outside the selection changed")
+    elif k == "setdoc":
+        if op[2] <= len(op[1]) and (nt != op[1] or nc != max(0, op[2])):
+            bad("Buffer.document", "set", "document setter")
     elif k == "cur":
         if nt != text or nc != max(0, min(op[1], len(text))):
             bad("Buffer.cursor_position", "clamp", "cursor setter")
